@@ -51,6 +51,17 @@ def cases(rng, tier):
             n, m = rng.choice([2, 2, 3, 4]), rng.choice([2, 3])
             den = rng.choice([4, 8, 16])
             ax, conds = table(rng, n, m, den)
+            if rng.random() < 0.12:
+                # one nearly vacuous (not vacuous by the guard) conditional with a small base rate, all others vacuous:
+                # the normaliser is positive but tiny
+                conds = []
+                for x in range(n):
+                    if x == 0:
+                        bb, uu = G.edge_simplex(rng, fmt, m, "vac_edge")
+                    else:
+                        bb, uu = [0.0] * m, 1.0
+                    conds += bb + [uu]
+                ax = [float(v) for v in G.rand_dist(rng, n, 8, positive=True)]
             fam = rng.choice(G.FAMS_1D)
             st = rng.choice(["o", "r"])
             r = rng.random()
